@@ -1,7 +1,7 @@
 """C17 - verdicts do not depend on the order of SAN entries or of extensions."""
 import common
 
-THEOREMS = ["c17_first_offender_perm", "c17_label_lints_perm", "c17_na_first_refuted", "c17_find_ext_perm", "c17_name_lints_perm", "c17_name_lints_range", "c17_name_twins_agree", "c17_gn_lints_perm", "c17_raw_lints_perm", "c17_cn_san_lints_perm", "c17_cn_exact_spec", "c17_subject_length_lints_perm", "c17_subject_length_spec", "c17_arpa_lints_perm", "c17_presence_lints_perm", "c17_url_lints_perm", "c17_empty_name_perm", "c17_empty_name_spec", "c17_tor_perm", "c17_tor_spec"]
+THEOREMS = ["c17_first_offender_perm", "c17_label_lints_perm", "c17_na_first_refuted", "c17_find_ext_perm", "c17_name_lints_perm", "c17_name_lints_range", "c17_name_twins_agree", "c17_gn_lints_perm", "c17_raw_lints_perm", "c17_cn_san_lints_perm", "c17_cn_exact_spec", "c17_subject_length_lints_perm", "c17_subject_length_spec", "c17_arpa_lints_perm", "c17_gn_sn_policy_perm", "c17_ev_lints_perm", "c17_policy_duplicate_perm", "c17_nc_form_perm", "c17_presence_lints_perm", "c17_url_lints_perm", "c17_empty_name_perm", "c17_empty_name_spec", "c17_tor_perm", "c17_tor_spec"]
 
 # lints that walk c.Extensions themselves (reviewed: they look extensions up by OID or test every element)
 ALLOW_EXT_READERS = None  # recorded, not gated: the dynamic permutation run decides
@@ -77,6 +77,20 @@ def run(ctx):
     common.require_outcomes(ctx, "presence", d["cases"].get("presence", []), [{"3", "6"}] * 19 + [{"3", "4"}, {"3", "5"}, {"3", "6"}, {"3", "5"}])
     if not mon:
         common.report_disagreements(ctx, "presence", fp, "Kernels.SubjPresence.all_presence_lints (c17_presence_lints_perm applies to the model only)", [])
+    eheader = ("From ZL Require Import Base.Bytes Base.Corr Kernels.Scope Kernels.EvPresence.\nFrom Coq Require Import ZArith List.\nImport ListNotations.\nOpen Scope Z_scope.\n"
+               "Fixpoint zl_eqe (m o : list Z) : bool := match m, o with [], [] => true | x :: m', y :: o' => (x =? y) && zl_eqe m' o' | _, _ => false end.\n"
+               "Definition chke (c : ev_view * list Z) : bool := zl_eqe (all_ev_lints (fst c)) (snd c).\n")
+    fe = common.corr_stream(ctx, "ev", d["cases"].get("ev", []), eheader, "chke", "EvPresence.all_ev_lints (five EV presence lints) vs the real lints by direct call")
+    common.require_outcomes(ctx, "ev", d["cases"].get("ev", []), [{"3", "6"}] * 5)
+    if not mon:
+        common.report_disagreements(ctx, "ev", fe, "Kernels.EvPresence.all_ev_lints", [])
+    aheader = ("From ZL Require Import Base.Bytes Base.Corr Kernels.Scope Kernels.CaSubject.\nFrom Coq Require Import ZArith List.\nImport ListNotations.\nOpen Scope Z_scope.\n"
+               "Fixpoint zl_eqa (m o : list Z) : bool := match m, o with [], [] => true | x :: m', y :: o' => (x =? y) && zl_eqa m' o' | _, _ => false end.\n"
+               "Definition chka (c : cs_view * list Z) : bool := zl_eqa (all_ca_subject_lints (fst c)) (snd c).\n")
+    fa = common.corr_stream(ctx, "casubj", d["cases"].get("casubj", []), aheader, "chka", "CaSubject.all_ca_subject_lints (eight subject / validity bodies) vs the real lints by direct call")
+    common.require_outcomes(ctx, "casubj", d["cases"].get("casubj", []), [{"3", "6"}] * 8)
+    if not mon:
+        common.report_disagreements(ctx, "casubj", fa, "Kernels.CaSubject.all_ca_subject_lints", [])
     lheader = ("From ZL Require Import Base.Bytes Base.Corr Kernels.SubjLen.\nFrom Coq Require Import ZArith List.\nImport ListNotations.\nOpen Scope Z_scope.\n"
                "Fixpoint zl_eq (m o : list Z) : bool := match m, o with [], [] => true | x :: m', y :: o' => (x =? y) && zl_eq m' o' | _, _ => false end.\n"
                "Definition chkl (c : list (list bytes) * list Z) : bool := zl_eq (all_len_lints (fst c)) (snd c).\n")
